@@ -419,6 +419,8 @@ def compare(case, io, mo, mode):
             return None          # a negative subscript is an error branch of the translation; Python wraps around
         if mo["err"] == "index_error" and mode == "jit" and not mo.get("raised"):
             return None          # an out-of-range subscript is undefined in compiled code (an explicit raise is not)
+        if mo["err"] == "other:UnboundLocalError" and mode != "nojit":
+            return None          # the read of an unbound local is undefined in compiled code; Python raises (interpreted mode)
         a = io.get("err") if isinstance(io, dict) else None
         return None if a == mo["err"] else f"real kernel {str(io)[:200]} generated kernel err={mo['err']}"
     if "err" in io:
